@@ -15,6 +15,7 @@ import gc
 import heapq
 import os
 import sys
+import socket as _real_socket
 import time as _real_time
 import types
 from asyncio import events
@@ -221,6 +222,21 @@ class FakeListenSocket:
     def __init__(self) -> None:
         self.queue: collections.deque = collections.deque()
         self.closed = False
+
+    def setsockopt(self, *a) -> None:
+        pass
+
+    def setblocking(self, flag) -> None:
+        pass
+
+    def bind(self, address) -> None:
+        self.bound = address
+
+    def listen(self, backlog=0) -> None:
+        pass
+
+    def getsockname(self):
+        return getattr(self, 'bound', ('127.0.0.1', 179))
 
     def accept(self):
         if not self.queue:
@@ -555,9 +571,25 @@ class World:
         self._patch(_log, 'init', lambda *a, **k: None)
 
         if self.listen:
+            # the listening socket is installed through the public Listener.listen_on(), the socket module of the listener
+            # replaced by one whose socket() hands out the fake: no private table of the Listener is written
+            from exabgp.protocol.ip import IP
+            from exabgp.reactor import listener as listener_mod
+
             self.lsock = FakeListenSocket()
-            self.reactor.listener._sockets[self.lsock] = ('127.0.0.1', 179, '127.0.0.2', None)
-            self.reactor.listener.serving = True
+            world = self
+
+            class _SocketModule:
+                def __getattr__(self, name):
+                    return getattr(_real_socket, name)
+
+                @staticmethod
+                def socket(*a, **k):
+                    return world.lsock
+
+            self._patch(listener_mod, 'socket', _SocketModule())
+            if not self.reactor.listener.listen_on(IP.from_string('127.0.0.1'), IP.from_string('127.0.0.2'), 179, None, False, None):
+                raise RuntimeError('Listener.listen_on refused the fake listening socket')
         self.main = self.loop.create_task(self.reactor.run_async())
         return self
 
